@@ -27,9 +27,9 @@ Proof.
       split; simpl.
       + apply obj_syms_ext. exact Hoo.
       + f_equal. apply wobj_ext; [exact Hoo|]. intros x Hx. apply Hn. unfold sym_sup. right.
-        apply in_or_app. right. apply in_or_app. right. rewrite Ei. simpl. exact Hx.
+        apply in_or_app. right. apply in_or_app. right. apply in_or_app. left. rewrite Ei. simpl. exact Hx.
     - split; simpl; [reflexivity|]. rewrite Hn; [reflexivity|]. unfold sym_sup. right.
-      apply in_or_app. right. apply in_or_app. right. rewrite Ei. simpl. left. reflexivity. }
+      apply in_or_app. right. apply in_or_app. right. apply in_or_app. left. rewrite Ei. simpl. left. reflexivity. }
   destruct Hi as [Hi1 Hi2].
   split; [|split].
   - unfold sym_sup. rewrite Ey. rewrite (obj_syms_ext W W' _ _ Hd). rewrite Hi1. reflexivity.
@@ -42,7 +42,11 @@ Proof.
     { destruct (sinit (hs W s)) as [e|] eqn:Ee; simpl; [|reflexivity]. f_equal. apply wexpr_names.
       intros x Hx. apply Hn. unfold sym_sup. right. apply in_or_app. right. apply in_or_app. left.
       rewrite Ee. simpl. exact Hx. }
-    rewrite Einit. reflexivity.
+    rewrite Einit.
+    assert (Emem : wmem W' (smem (hs W s)) = wmem W (smem (hs W s))).
+    { unfold wmem. f_equal. apply map_Forall_ext. apply Forall_forall. intros m Hm. apply Hn.
+      unfold sym_sup. right. apply in_or_app. right. apply in_or_app. right. apply in_or_app. right. exact Hm. }
+    rewrite Emem. reflexivity.
 Qed.
 
 Lemma ext : forall W W' n, agree W W' n ->
@@ -109,24 +113,25 @@ Proof.
   intros s nm n. induction n as [i tag sl tab ch IH] using node_ind'. simpl. f_equal.
   apply flat_map_map_Forall. exact IH.
 Qed.
-Lemma rename_tab_syms : forall s nm t, syms (rename_tab s nm t) = syms t.
+Lemma rename_tab_syms : forall s nm t x, In x (syms (rename_tab s nm t)) -> In x (syms t).
 Proof.
-  intros. unfold syms, rename_tab. rewrite map_map. apply map_Forall_ext. apply Forall_forall.
-  intros [k x] _. simpl. destruct (x =? s) eqn:E; simpl; [apply N.eqb_eq in E; auto | reflexivity].
+  intros s nm t x Hx. unfold rename_tab in Hx. destruct (memN s (syms t)) eqn:E; [|exact Hx].
+  unfold syms in Hx. rewrite map_app in Hx. apply in_app_or in Hx as [Hx|Hx].
+  - apply in_map_iff in Hx as [e [E1 He]]. apply filter_In in He as [He _].
+    unfold syms. apply in_map_iff. exists e. auto.
+  - simpl in Hx. destruct Hx as [Hx|[]]. subst x. apply memN_true. exact E.
 Qed.
-Lemma rename_tree_owned : forall s nm n, owned (rename_tree s nm n) = owned n.
+Lemma rename_tree_owned : forall s nm n x, In x (owned (rename_tree s nm n)) -> In x (owned n).
 Proof.
-  intros s nm n. induction n as [i tag sl tab ch IH] using node_ind'. cbn [rename_tree].
-  rewrite !owned_node. f_equal.
-  - destruct tab as [t|]; simpl; [apply rename_tab_syms | reflexivity].
-  - apply flat_map_map_Forall. exact IH.
+  intros s nm n. induction n as [i tag sl tab ch IH] using node_ind'. intros x Hx. cbn [rename_tree] in Hx.
+  rewrite owned_node in *. apply in_app_or in Hx as [Hx|Hx]; apply in_or_app.
+  - left. destruct tab as [t|]; simpl in *; [eapply rename_tab_syms; exact Hx | contradiction].
+  - right. apply in_flat_map in Hx as [c' [Hc' Hx]]. apply in_map_iff in Hc' as [c [E Hc]]. subst c'.
+    rewrite Forall_forall in IH. apply in_flat_map. exists c. split; [exact Hc | apply IH; assumption].
 Qed.
 Lemma rename_tab_id : forall s nm t, ~ In s (syms t) -> rename_tab s nm t = t.
 Proof.
-  intros s nm t. induction t as [|[k x] r IH]; simpl; intro Hn; [reflexivity|].
-  destruct (x =? s) eqn:E.
-  - apply N.eqb_eq in E. exfalso. apply Hn. left. exact E.
-  - f_equal. apply IH. intro Hin. apply Hn. right. exact Hin.
+  intros s nm t Hn. unfold rename_tab. rewrite (proj2 (memN_false s (syms t)) Hn). reflexivity.
 Qed.
 Lemma rename_tree_id : forall s nm n, ~ In s (owned n) -> rename_tree s nm n = n.
 Proof.
@@ -231,7 +236,7 @@ Proof.
     destruct (ext W W1 B Hag) as [Ew [Es _]].
     split; [|exact Ew]. split; cbn [sw sa sb].
     + intros i Hi. rewrite rename_tree_ids in Hi. apply Hids. exact Hi.
-    + intros x Hx. rewrite rename_tree_owned in Hx. rewrite Es. apply Hown. exact Hx.
+    + intros x Hx. apply rename_tree_owned in Hx. rewrite Es. apply Hown. exact Hx.
   - (* new symbol *)
     destruct Hv as [Hk HsB].
     assert (HB : add_sym_tree k (norm (sname y)) s B = B) by (apply add_sym_id; apply Hids; exact Hk).
@@ -355,7 +360,7 @@ Section AfterCopy.
           rewrite Forall_forall in IH. apply IH; assumption. }
       unfold sym_sup in Hx. rewrite Hnew in Hx. unfold copied_sym in Hx. cbn [sname styped sdt sinit sintf] in Hx.
       unfold sym_sup in Hsup. apply Forall_cons_iff in Hsup as [_ Hsup]. rewrite !Forall_app in Hsup.
-      destruct Hsup as [Hdt [Hinit Hintf]]. unfold sym_objs in Hobj. apply Forall_cons_iff in Hobj as [Hdo Hio].
+      destruct Hsup as [Hdt [Hinit [Hintf Hmem]]]. unfold sym_objs in Hobj. apply Forall_cons_iff in Hobj as [Hdo Hio].
       destruct Hx as [Hx|Hx]; [left; lia|].
       assert (Hattr : forall y, In y (attr_syms W s) -> In y (flat_map (attr_syms W) (owned n)))
         by (intros y Hy; apply in_flat_map; exists s; auto).
@@ -369,7 +374,12 @@ Section AfterCopy.
           right. right. right. apply Hattr. unfold attr_syms. apply in_or_app. right. apply in_or_app. left.
           destruct (sinit (hs W s)) as [e|]; simpl in *; [|contradiction].
           rewrite expr_syms_shift in Hx. exact Hx.
-        * (* interface *)
+        * apply in_app_or in Hx as [Hx|Hx].
+          2:{ (* members of a generic interface: re-bound to the copy's own routine symbols *)
+              apply in_map_iff in Hx as [m [Em Hm]]. rewrite Forall_forall in Htw, Himp.
+              assert (Hc : In m (syms t)) by (apply (proj2 (Himp t Ht) s m Hst Hm)).
+              rewrite (lookup_deep_copy (hs W) soff t m (Htw t Ht) Hc) in Em. left. lia. }
+          (* interface *)
           destruct (sintf (hs W s)) as [o|cc] eqn:Ei.
           -- right. right. right. apply Hattr. unfold attr_syms. apply in_or_app. right. apply in_or_app. right.
              rewrite Ei. simpl in Hio. apply Forall_cons_iff in Hio as [Hoo _].
@@ -378,7 +388,7 @@ Section AfterCopy.
              ++ rewrite (obj_syms_ext W W' o (o + ooff)) in Hx; [exact Hx|]. unfold W'. simpl. apply copy_ho_new.
           -- (* import: the container was re-bound to the copy's own container symbol *)
              rewrite Forall_forall in Htw, Himp.
-             assert (Hc : In cc (syms t)) by (apply (Himp t Ht s cc Hst Ei)).
+             assert (Hc : In cc (syms t)) by (apply (proj1 (Himp t Ht) s cc Hst Ei)).
              rewrite (lookup_deep_copy (hs W) soff t cc (Htw t Ht) Hc) in Hx. simpl in Hx.
              destruct Hx as [Hx|[]]. left. lia.
   Qed.
